@@ -3,6 +3,7 @@ package main
 import (
 	"bufio"
 	"bytes"
+	"compress/gzip"
 	"crypto/sha256"
 	"encoding/hex"
 	"fmt"
@@ -13,6 +14,7 @@ import (
 	"strconv"
 	"strings"
 
+	"golang.org/x/crypto/openpgp"
 	"pault.ag/go/debian/changelog"
 	"pault.ag/go/debian/control"
 	"pault.ag/go/debian/deb"
@@ -512,6 +514,63 @@ func apiCase(vec J) (rec J) {
 		}
 		rec["err"] = err != nil
 		rec["equal"] = buf.String() == buf2.String() && buf.Len() > 0
+	case "hashio-unknown-NewHasher":
+		h, err := hashio.NewHasher("sha3")
+		rec["err"] = err != nil && h == nil
+	case "hashio-unknown-GetHash":
+		h, err := hashio.GetHash("SHA256") // names are lower-case
+		rec["err"] = err != nil && h == nil
+	case "hashio-unknown-NewHasherReader":
+		r, h, err := hashio.NewHasherReader("crc32", strings.NewReader("x"))
+		rec["err"] = err != nil && h == nil && r == nil
+	case "hashio-unknown-NewHasherWriter":
+		w, h, err := hashio.NewHasherWriter("", &buf)
+		rec["err"] = err != nil && h == nil && w == nil
+	case "hashio-unknown-NewHasherReaders":
+		r, hs, err := hashio.NewHasherReaders([]string{"md5", "nope", "sha1"}, strings.NewReader("x"))
+		rec["err"] = err != nil && hs == nil && r == nil
+	case "hashio-unknown-NewHasherWriters":
+		w, hs, err := hashio.NewHasherWriters([]string{"sha256", "sha-256"}, &buf)
+		rec["err"] = err != nil && hs == nil && w == nil
+	case "debsig-on-zero-deb":
+		_, err := (&deb.Deb{}).CheckDebsig(openpgp.EntityList{}, "origin")
+		setErr(err)
+	case "debsig-signature-member-only", "debsig-without-control-and-data":
+		mk := func(n, c string) *deb.ArEntry {
+			return &deb.ArEntry{Name: n, Size: int64(len(c)), Data: io.NewSectionReader(strings.NewReader(c), 0, int64(len(c)))}
+		}
+		d := &deb.Deb{ArContent: map[string]*deb.ArEntry{"_gpgorigin": mk("_gpgorigin", "x")}}
+		if name == "debsig-without-control-and-data" {
+			d.ArContent["debian-binary"] = mk("debian-binary", "2.0\n")
+		}
+		_, err := d.CheckDebsig(openpgp.EntityList{}, "origin")
+		setErr(err)
+	case "close-deb-without-closer":
+		err := (&deb.Deb{}).Close()
+		rec["err"] = err != nil
+		rec["equal"] = err == nil
+	case "gz-compressor-roundtrip":
+		c, err := hashio.GetCompressor("gz")
+		if err != nil {
+			rec["err"] = true
+			break
+		}
+		text := strings.Repeat("debian control data\n", 500)
+		wc, err := c(&buf)
+		if err != nil {
+			rec["err"] = true
+			break
+		}
+		io.WriteString(wc, text)
+		wc.Close()
+		zr, err := gzip.NewReader(&buf)
+		if err != nil {
+			rec["err"] = true
+			break
+		}
+		back, err := io.ReadAll(zr)
+		rec["err"] = err != nil
+		rec["equal"] = string(back) == text
 	default:
 		die("api: unknown case %s", name)
 	}
